@@ -672,7 +672,22 @@ impl Source for GenSource {
                         6 => {
                             if c.idx.is_some() && c.kind != W_EDNS && !on_opt {
                                 self.walk_fault = None;
-                                let n = gen_name_of_len(&mut self.rng, 255);
+                                // aim at the 65535-byte boundary when it is within reach
+                                let cur_len = if c.kind == W_QUESTION {
+                                    c.model.q.as_ref().map(|q| q.name.wire_len()).unwrap_or(1)
+                                } else {
+                                    c.rec.map(|r| r.name.wire_len()).unwrap_or(1)
+                                };
+                                let unc = crate::codec::encode_literal(c.model).len();
+                                let mut target = 255usize;
+                                if unc + 255 > 65535 && unc <= 65535 + cur_len {
+                                    let exact = 65535 + cur_len - unc; // lands on exactly 65535
+                                    let want = exact as i64 + *self.rng.pick(&[-1i64, 0, 0, 1, 1, 2]);
+                                    if (3..=255).contains(&want) {
+                                        target = want as usize;
+                                    }
+                                }
+                                let n = gen_name_of_len(&mut self.rng, target);
                                 return Some(CurOp::SetRawName(n.wire()));
                             }
                         }
